@@ -133,9 +133,9 @@ Holds(r, ev, P) ==
             /\ Len(o.blocks) = Len(P.blocks)
             /\ \A k \in 1..Len(P.blocks) : BlockMatches(o.blocks[k], P.blocks[k], P.lines)
       [] r = "C08.NoOp" -> live /\ c.kind = "view" /\ o.ok /\ o.records # <<>> => o.noop_ran /\ o.noop = c.text
-      [] r = "C09.Accepted" -> live /\ c.kind = "view" /\ o.ok /\ o.records # <<>> =>
+      [] r = "C09.Accepted" -> live /\ c.kind = "view" /\ o.ok /\ o.records # <<>> /\ ~LoneCR(P.lines) =>
             o.print_code = 0 /\ o.reparsed.ok
-      [] r = "C09.SameRecords" -> live /\ c.kind = "view" /\ o.ok /\ o.records # <<>> /\ o.reparsed.ok =>
+      [] r = "C09.SameRecords" -> live /\ c.kind = "view" /\ o.ok /\ o.records # <<>> /\ ~LoneCR(P.lines) /\ o.reparsed.ok =>
             /\ Len(o.reparsed.records) = Len(o.records)
             /\ \A k \in 1..Len(o.records) :
                   LET a == o.records[k]  b == o.reparsed.records[k] IN
@@ -144,8 +144,8 @@ Holds(r, ev, P) ==
                   /\ \A i \in 1..Len(a.entries) :
                         LET x == a.entries[i]  y == b.entries[i] IN
                         x.kind = y.kind /\ x.a = y.a /\ x.b = y.b /\ x.canon = y.canon /\ x.summary = y.summary
-      [] r = "C09.FixedPoint" -> live /\ c.kind = "view" /\ o.ok /\ o.records # <<>> => o.print2 = o.print
-      [] r = "C09.Layout" -> live /\ c.kind = "view" /\ o.ok /\ o.records # <<>> => LayoutOK(o.print)
+      [] r = "C09.FixedPoint" -> live /\ c.kind = "view" /\ o.ok /\ o.records # <<>> /\ ~LoneCR(P.lines) => o.print2 = o.print
+      [] r = "C09.Layout" -> live /\ c.kind = "view" /\ o.ok /\ o.records # <<>> /\ ~LoneCR(P.lines) => LayoutOK(o.print)
       [] r = "C09.Exact" -> live /\ c.kind = "view" /\ o.ok /\ P.status = "Conforming" /\ P.recs # <<>> =>
             \/ \E k \in 1..Len(P.recs) : \E i \in 1..Len(P.recs[k].entries) : P.recs[k].entries[i].loose
             \/ o.print = LF \o PrintDoc(DocData(P)) \o LF
